@@ -7,8 +7,11 @@ import (
 	"io"
 	"net"
 	"path/filepath"
+	"regexp"
+	"runtime/debug"
 	"sort"
 	"strings"
+	"sync"
 	"time"
 
 	"github.com/bfenetworks/bfe/bfe_fcgi"
@@ -43,8 +46,11 @@ type c55Step struct {
 type c55Case struct {
 	Level      string    `json:"level"` // client | transport
 	Shape      string    `json:"shape"`
-	Net        string    `json:"net"`    // tcp | unix (client level only)
-	Params     [][2]int  `json:"params"` // (name length, value length); transport: header (name suffix index, value length)
+	Script     string    `json:"script"`         // shape of the responder script
+	Net        string    `json:"net"`            // tcp | unix (client level only)
+	Params     [][2]int  `json:"params"`         // (name length, value length); transport: header (name suffix index, value length)
+	Many       int       `json:"many,omitempty"` // + this many generated pairs: pair k has name length 6+(k*7+salt)%35, value length (k*13+salt)%100
+	Salt       int       `json:"salt,omitempty"`
 	BodyLen    int       `json:"body_len"`
 	Method     string    `json:"method,omitempty"`
 	Query      string    `json:"query,omitempty"`
@@ -75,9 +81,17 @@ func c55Name(idx, n int) string {
 	return p + strings.ToUpper(c55Fill('n', idx, n-len(p)))
 }
 
+func c55AllParams(c *c55Case) [][2]int {
+	ps := append([][2]int{}, c.Params...)
+	for k := 0; k < c.Many; k++ {
+		ps = append(ps, [2]int{6 + (k*7+c.Salt)%35, (k*13 + c.Salt) % 100})
+	}
+	return ps
+}
+
 func c55ParamMap(c *c55Case) map[string]string {
 	m := map[string]string{}
-	for i, p := range c.Params {
+	for i, p := range c55AllParams(c) {
 		m[c55Name(i, p[0])] = c55Fill('v', i, p[1])
 	}
 	return m
@@ -164,6 +178,8 @@ func c55NewResponder(network string, i int) (*c55Responder, error) {
 	return rs, nil
 }
 
+var c55BufPool = sync.Pool{New: func() interface{} { return make([]byte, 128<<10) }}
+
 func (rs *c55Responder) serve(conn net.Conn, j *c55Job) {
 	defer conn.Close()
 	done := make(chan struct{})
@@ -179,7 +195,8 @@ func (rs *c55Responder) serve(conn net.Conn, j *c55Job) {
 	var rec c55Recording
 	dec := &fcgi.RequestDecoder{}
 	var buf []byte
-	tmp := make([]byte, 256<<10)
+	tmp := c55BufPool.Get().([]byte)
+	defer c55BufPool.Put(tmp)
 	for !dec.Done() && rec.err == "" {
 		n, err := conn.Read(tmp)
 		rec.rawBytes += n
@@ -282,16 +299,16 @@ func c55Script(g *vkit.Rand, c *c55Case, stderr bool) {
 		switch class {
 		case 0: // before any output
 			errAt = 0
-			c.Shape += ":stderr-first"
+			c.Script = "stderr-first"
 		case 1: // somewhere between stdout records
 			errAt = g.Intn(len(steps))
-			c.Shape += ":stderr-interleaved"
+			c.Script = "stderr-interleaved"
 		case 2: // after the stdout terminator
 			errAt = len(steps)
-			c.Shape += ":stderr-after-stdout"
+			c.Script = "stderr-after-stdout"
 		default: // several
 			errAt = g.Intn(len(steps))
-			c.Shape += ":stderr-multiple"
+			c.Script = "stderr-multiple"
 		}
 		ns := append([]c55Step{}, steps[:errAt]...)
 		ns = append(ns, e)
@@ -330,8 +347,9 @@ func c55GenClient(r *vkit.Run, i int) *c55Case {
 		}
 	case class < 10:
 		c.Shape = "many-pairs-crossing-records"
-		for k := g.Range(1500, 4000); k > 0; k-- {
-			add(g.Range(6, 40), g.Intn(100))
+		c.Many, c.Salt = g.Range(1500, 4000), g.Intn(1000)
+		for k := g.Intn(3); k > 0; k-- {
+			add(pick(), pick())
 		}
 	case class < 12:
 		// name + value just below the single-record limit: 8+nl+vl in 65400..65500
@@ -390,6 +408,33 @@ func c55GenTransport(r *vkit.Run, i int) *c55Case {
 
 // execution ------------------------------------------------------------------------
 
+var c55Frame = regexp.MustCompile(`github\.com/bfenetworks/bfe/(bfe_[a-z0-9_]+)\.(?:\(\*?([A-Za-z0-9_]+)\)\.)?([A-Za-z0-9_]+)`)
+
+// c55Try is vkit.Run.Try with a signature that keeps the method name
+// (vkit.PanicSig stops at the '(' of a pointer receiver).
+func c55Try(r *vkit.Run, c *c55Case, fn func()) (panicked bool) {
+	defer func() {
+		if e := recover(); e != nil {
+			panicked = true
+			st := debug.Stack()
+			sig := "panic:unknown"
+			if m := c55Frame.FindSubmatch(st); m != nil {
+				sig = fmt.Sprintf("panic:%s.%s", m[1], m[3])
+				if len(m[2]) > 0 {
+					sig = fmt.Sprintf("panic:%s.%s.%s", m[1], m[2], m[3])
+				}
+			}
+			stack := string(st)
+			if len(stack) > 3000 {
+				stack = stack[:3000]
+			}
+			r.Violation(sig+":"+c.Shape, fmt.Sprintf("panic: %v", e), c55Witness(c, map[string]interface{}{"panic": fmt.Sprint(e), "stack": stack}))
+		}
+	}()
+	fn()
+	return false
+}
+
 type c55Pool struct {
 	unix chan *c55Responder
 	tcp  chan *c55Responder
@@ -428,8 +473,17 @@ func c55Key(c *c55Case) string {
 		M string
 		Q string
 		S []c55Step
-	}{c.Level, c.Params, c.BodyLen, c.Method, c.Query, c.Steps})
+	}{c.Level, append(append([][2]int{}, c.Params...), [2]int{c.Many, c.Salt}), c.BodyLen, c.Method, c.Query, c.Steps})
 	return string(b)
+}
+
+func c55StderrLen(c *c55Case) (n int) {
+	for _, s := range c.Steps {
+		if s.T == "err" {
+			n += s.N
+		}
+	}
+	return n
 }
 
 func c55HasStderr(c *c55Case) bool {
@@ -458,7 +512,7 @@ func c55Run(r *vkit.Run, pool *c55Pool, c *c55Case) {
 	var gotBody []byte
 	var wantParams map[string]string // exact (client) or required subset (transport)
 	connected := false
-	panicked := r.Try(func() interface{} { return c }, func() {
+	panicked := c55Try(r, c, func() {
 		if c.Level == "client" {
 			wantParams = c55ParamMap(c)
 			in := map[string]string{}
@@ -552,7 +606,7 @@ func c55Run(r *vkit.Run, pool *c55Pool, c *c55Case) {
 		r.Violation(sig+":"+c.Shape, rec.err, c55Witness(c, map[string]interface{}{"call_error": fmt.Sprint(callErr)}))
 		return
 	}
-	nontrivial = len(c.Params) > 0
+	nontrivial = len(c.Params)+c.Many > 0
 	rq := rec.req
 	if rq.Role != fcgi.RoleResponder {
 		r.Violation("begin:role", fmt.Sprintf("BEGIN_REQUEST role %d", rq.Role), c55Witness(c, nil))
@@ -621,7 +675,17 @@ func c55Run(r *vkit.Run, pool *c55Pool, c *c55Case) {
 		return
 	}
 	leak := bytes.Contains(gotBody, []byte(c55ErrMarker[:4])) || c55HeaderHas(resp, c55ErrMarker[:4])
-	if resp.StatusCode != wantStatus || resp.Header.Get("X-Marker") != fmt.Sprintf("m%d", c.Idx) {
+	wantHdr := map[string]string{"Content-Type": "application/octet-stream", "X-Marker": fmt.Sprintf("m%d", c.Idx)}
+	if c.Status != 0 {
+		wantHdr["Status"] = fmt.Sprintf("%d Scripted", c.Status)
+	}
+	hdrOK := len(resp.Header) == len(wantHdr)
+	for k, v := range wantHdr {
+		if vs := resp.Header[k]; len(vs) != 1 || vs[0] != v {
+			hdrOK = false
+		}
+	}
+	if resp.StatusCode != wantStatus || !hdrOK {
 		sig := "response:status-or-header"
 		if hasErr {
 			sig = stderrSig("in-headers")
@@ -631,7 +695,7 @@ func c55Run(r *vkit.Run, pool *c55Pool, c *c55Case) {
 	}
 	if !bytes.Equal(gotBody, wantBody) {
 		sig := "response:body-differs"
-		if hasErr && leak {
+		if hasErr && (leak || len(gotBody) == len(wantBody)+c55StderrLen(c)) {
 			sig = stderrSig("in-body")
 		}
 		r.Violation(sig, fmt.Sprintf("response body has %d bytes, STDOUT body %d bytes; STDERR text present in body: %v", len(gotBody), len(wantBody), leak), c55Witness(c, nil))
